@@ -53,7 +53,7 @@ structure Origin where
   cond : Bool := false
   /-- … and that 304 carries `Content-Length: 0` -/
   cl0 : Bool := false
-  /-- … and this Cache-Control instead of the 200's (`[]` = the same) -/
+  /-- … and this Cache-Control instead of the 200's (`[]` = the same, `-` = none at all: a bare 304) -/
   cc304 : Bytes := []
   deriving Repr, DecidableEq
 
@@ -80,7 +80,7 @@ def scriptEtag (o : Origin) : Bytes :=
 def lines304 (o : Origin) : List (Bytes × Bytes) :=
   (o.headers.filter fun kv =>
       if kv.1 = b!"Cache-Control" ∧ o.cc304 ≠ [] then false else (kv.1 = b!"ETag" || kv.1 = b!"Cache-Control")) ++
-  (if o.cc304 ≠ [] then [(b!"Cache-Control", o.cc304)] else []) ++
+  (if o.cc304 ≠ [] ∧ o.cc304 ≠ b!"-" then [(b!"Cache-Control", o.cc304)] else []) ++
   (if o.cl0 then [(b!"Content-Length", b!"0")] else [])
 
 /-- what the performer answers: `method` and the request header as sent to the origin;
